@@ -139,6 +139,23 @@ fn mk(partial: bool, clause: impl Clause) -> Unimock {
     }
 }
 
+/// After the provided methods have delegated through the internal helper, the instance is finished the way a
+/// `fn test() -> Unimock` test finishes it: `Termination::report()` must return an exit code, not panic
+/// ("clones still alive" would mean the internal delegation helper was counted as an escaped clone).
+fn finish(u: Unimock, out: &mut Vec<String>) {
+    let r = std::panic::catch_unwind(std::panic::AssertUnwindSafe(move || {
+        let _code = std::process::Termination::report(u);
+    }));
+    if let Err(p) = r {
+        let msg = p
+            .downcast_ref::<String>()
+            .cloned()
+            .or(p.downcast_ref::<&str>().map(|s| s.to_string()))
+            .unwrap_or_default();
+        out.push(format!("report() panicked: {msg}"));
+    }
+}
+
 fn res_str<T: std::fmt::Debug>(r: &io::Result<T>) -> String {
     match r {
         Ok(v) => format!("Ok({v:?})"),
@@ -1154,7 +1171,9 @@ fn run_family(family: &str, use_mock: bool, partial: bool, seed: u64) -> Run {
         "write" => {
             if use_mock {
                 let mut u = mock_writer(partial);
-                drive_write(&mut u, &mut drive_rng, &payload)
+                let mut out = drive_write(&mut u, &mut drive_rng, &payload);
+                finish(u, &mut out);
+                out
             } else {
                 drive_write(&mut PlainWriter, &mut drive_rng, &payload)
             }
@@ -1162,7 +1181,9 @@ fn run_family(family: &str, use_mock: bool, partial: bool, seed: u64) -> Run {
         "read" => {
             if use_mock {
                 let mut u = mock_reader(partial);
-                drive_read(&mut u, &mut drive_rng)
+                let mut out = drive_read(&mut u, &mut drive_rng);
+                finish(u, &mut out);
+                out
             } else {
                 drive_read(&mut PlainReader { buf: vec![] }, &mut drive_rng)
             }
@@ -1170,7 +1191,9 @@ fn run_family(family: &str, use_mock: bool, partial: bool, seed: u64) -> Run {
         "bufread" => {
             if use_mock {
                 let mut u = mock_reader(partial);
-                drive_bufread(&mut u, &mut drive_rng)
+                let mut out = drive_bufread(&mut u, &mut drive_rng);
+                finish(u, &mut out);
+                out
             } else {
                 drive_bufread(&mut PlainReader { buf: vec![] }, &mut drive_rng)
             }
@@ -1178,7 +1201,9 @@ fn run_family(family: &str, use_mock: bool, partial: bool, seed: u64) -> Run {
         "seek" => {
             if use_mock {
                 let mut u = mk(partial, SeekMock::seek.each_call(matching!(_)).answers(&|_, pos| rp_seek(pos))).no_verify_in_drop();
-                drive_seek(&mut u, &mut drive_rng)
+                let mut out = drive_seek(&mut u, &mut drive_rng);
+                finish(u, &mut out);
+                out
             } else {
                 drive_seek(&mut PlainSeek, &mut drive_rng)
             }
@@ -1205,7 +1230,9 @@ fn run_family(family: &str, use_mock: bool, partial: bool, seed: u64) -> Run {
                     DebugMock::fmt.each_call(matching!(_)).answers(&|_, f| rp_fmt(f, "debug")),
                 ))
                 .no_verify_in_drop();
-                drive_fmt(&u)
+                let mut out = drive_fmt(&u);
+                finish(u, &mut out);
+                out
             } else {
                 drive_fmt(&PlainFmt)
             }
@@ -1213,7 +1240,9 @@ fn run_family(family: &str, use_mock: bool, partial: bool, seed: u64) -> Run {
         "hal" => {
             if use_mock {
                 let mut u = mock_hal(partial);
-                drive_hal(&mut u, &mut drive_rng)
+                let mut out = drive_hal(&mut u, &mut drive_rng);
+                finish(u, &mut out);
+                out
             } else {
                 drive_hal(&mut PlainHal { high: false }, &mut drive_rng)
             }
@@ -1221,7 +1250,9 @@ fn run_family(family: &str, use_mock: bool, partial: bool, seed: u64) -> Run {
         "bus" => {
             if use_mock {
                 let mut u = mock_bus(partial);
-                drive_bus(&mut u, &mut drive_rng)
+                let mut out = drive_bus(&mut u, &mut drive_rng);
+                finish(u, &mut out);
+                out
             } else {
                 drive_bus(&mut PlainBus, &mut drive_rng)
             }
@@ -1229,7 +1260,9 @@ fn run_family(family: &str, use_mock: bool, partial: bool, seed: u64) -> Run {
         "spibus" => {
             if use_mock {
                 let mut u = mock_spibus(partial);
-                drive_spibus(&mut u, &mut drive_rng)
+                let mut out = drive_spibus(&mut u, &mut drive_rng);
+                finish(u, &mut out);
+                out
             } else {
                 drive_spibus(&mut PlainSpiBus, &mut drive_rng)
             }
@@ -1237,7 +1270,9 @@ fn run_family(family: &str, use_mock: bool, partial: bool, seed: u64) -> Run {
         "tokio" => {
             if use_mock {
                 let mut u = mock_tokio(partial);
-                drive_tokio(&mut u, &mut drive_rng)
+                let mut out = drive_tokio(&mut u, &mut drive_rng);
+                finish(u, &mut out);
+                out
             } else {
                 drive_tokio(&mut PlainTokio { buf: vec![] }, &mut drive_rng)
             }
@@ -1245,7 +1280,9 @@ fn run_family(family: &str, use_mock: bool, partial: bool, seed: u64) -> Run {
         "futures" => {
             if use_mock {
                 let mut u = mock_futures(partial);
-                drive_futures(&mut u, &mut drive_rng)
+                let mut out = drive_futures(&mut u, &mut drive_rng);
+                finish(u, &mut out);
+                out
             } else {
                 drive_futures(&mut PlainFutures { buf: vec![] }, &mut drive_rng)
             }
